@@ -129,3 +129,55 @@ contract(M, 'nfa_concatenation', {'N1': 'NFA', 'N2': 'NFA'}, returns='NFA',
              'all(implies((q, b) in delta, q in Q and (b in Sigma or b == N1.epsilon)) for q in atoms() for b in atoms())', 'Q == N1.Q | N2.Q', 'Sigma == N1.Sigma | N2.Sigma']}},
          theories=['word', 'wordx', 'nfa', 'nfax'], props=['C18', 'C19', 'C06'],
          note='exact transition relation; the language statement follows by lemmas cat-eclo (closure across the bridge), cat-sim (states after reading w, word induction), Bcat-char (split positions) and cat-lang')
+
+# ---------------------------------------------------------------------------------------------- C15: the steps of the NFA simulation
+contract(M, 'nfa_do_transition', {'N': 'NFA', 'a': 'Symbol', 'R': 'Set[State]'}, returns='Set[State]', requires=['nfa_wf(N)'],
+         ensures=['result == move(N, R, a)'], types={'result': 'Set[State]'},
+         loops={1: {'ghost': 'doneR', 'invariant': ['all((y in result) == any(x in doneR and y in step(N, x, a) for x in atoms()) for y in atoms())']}},
+         theories=['word', 'nfa'], props=['C15', 'C19'])
+contract(M, 'nfa_find_transition', {'N': 'NFA', 'R': 'Set[State]', 'a': 'Symbol', 'target': 'State'}, returns='Opt[State]', requires=['nfa_wf(N)'],
+         ensures=['implies(result is not None, the(result) in R and target in step(N, the(result), a))',
+                  'implies(result is None, all(target not in step(N, x, a) for x in R))'],
+         loops={1: {'ghost': 'doneR', 'invariant': ['all(target not in step(N, x, a) for x in doneR)']},
+                2: {'ghost': 'doneK', 'invariant': ['src in R', 'all(target not in step(N, x, a) for x in doneR)',
+                                                  'all(implies(k[0] == src and k[1] == a, target not in N.delta[k]) for k in doneK)']},
+                3: {'ghost': 'doneQ', 'invariant': ['src in R', 'src == p', 'a == a1', '(p, a1) in N.delta', 'Q1 == N.delta[(p, a1)]', 'all(target not in step(N, x, a) for x in doneR)',
+                                                  'all(implies(k[0] == src and k[1] == a, target not in N.delta[k]) for k in doneK)', 'all(y != target for y in doneQ)']}},
+         theories=['word', 'nfa'], props=['C15', 'C19'])
+
+# ---------------------------------------------------------------------------------------------- C02: bounded enumeration of an NFA
+_WA = 'all((v in lookup(W, y)) == (wlen(v) == %s and over(N.Sigma, v) and y in Nhat(N, v)) for y in atoms() for v in allwords())'
+_RB = '(wlen(v) <= %s and over(N.Sigma, v) and nfa_accepts(N, v))'
+_CACHE = ['all(x in Eq for x in N.Q)', 'all(Eq[x] == Eclo(N, {x}) for x in N.Q)', 'all(lookup(Eqa, (x, b)) == Eclo(N, step(N, x, b)) for x in atoms() for b in atoms())',
+          'all((x in F1) == (x in N.Q and any(f in N.F and f in Eclo(N, {x}) for f in atoms())) for x in atoms())']
+# a word v = w.b was contributed to W1[y] by the triple (x, b, y): x is a key of W with w in W[x], b a letter, y in the closure of the b-successors of x
+def _CONTRIB(proc): return ('any(%s and x in W and b in N.Sigma and y in Eclo(N, step(N, x, b)) and v != nil() and last(v) == b and init(v) in lookup(W, x) for x in atoms() for b in atoms())' % proc)
+def _W1(proc): return 'all((v in lookup(W1, y)) == %s for y in atoms() for v in allwords())' % _CONTRIB(proc)
+def _RES(proc): return 'all((v in result) == (%s or any(y in F1 and %s for y in atoms())) for v in allwords())' % (_RB % 'i', _CONTRIB(proc))
+_P3 = 'x in doneK'
+_P4 = '(x in doneK or (x == q and b in doneA))'
+_P5 = '(x in doneK or (x == q and (b in doneA or (b == a and y in doneQ))))'
+_NW_COMMON = _CACHE + ['0 <= i and i < n', _WA % 'i']
+contract(M, 'nfa_words_up_to_n', {'N': 'NFA', 'n': 'Int'}, returns='Set[Word]', requires=['nfa_wf(N)', 'n >= 0'],
+         ensures=['all((v in result) == %s for v in allwords())' % (_RB % 'n')],
+         types={'W': 'Map[State,Set[Word],default=set]', 'W1': 'Map[State,Set[Word],default=set]', 'F1': 'List[State]', 'result': 'Set[Word]', 'words_q1': 'Set[Word]',
+                'Eq': 'Map[State,Set[State]]', 'Eqa': 'Map[(State,Symbol),Set[State],default=set]'},
+         loops={1: {'ghost': 'doneE', 'invariant': _CACHE + ['all((v in lookup(W, y)) == (v == nil() and y in doneE) for y in atoms() for v in allwords())',
+                                                            'all((v in result) == (v == nil() and nfa_accepts(N, nil())) for v in allwords())']},
+                2: {'invariant': _CACHE + ['0 <= i and i <= n', _WA % 'i', 'all((v in result) == %s for v in allwords())' % (_RB % 'i')]},
+                3: {'ghost': 'doneK', 'invariant': _NW_COMMON + [_W1(_P3), _RES(_P3)],
+                    'after': [
+                        # every word contributed is w.b with w of length i reaching some x and y in the closure of the b-successors of x
+                        'all((v in lookup(W1, y)) == (v != nil() and wlen(init(v)) == i and over(N.Sigma, init(v)) and last(v) in N.Sigma and '
+                        'any(x in Nhat(N, init(v)) and y in Eclo(N, step(N, x, last(v))) for x in atoms())) for y in atoms() for v in allwords())',
+                        'all(implies(v != nil(), v == snoc(init(v), last(v)) and wlen(v) == wlen(init(v)) + 1 and over(N.Sigma, v) == (over(N.Sigma, init(v)) and last(v) in N.Sigma)) for v in allwords())',
+                        'all(implies(v != nil(), (y in Nhat(N, v)) == any(x in Nhat(N, init(v)) and y in Eclo(N, step(N, x, last(v))) for x in atoms())) for y in atoms() for v in allwords())',
+                        _WA.replace('lookup(W, y)', 'lookup(W1, y)') % 'i + 1',
+                        'all(nfa_accepts(N, v) == any(y in Nhat(N, v) and y in F1 for y in atoms()) for v in allwords())',
+                        'all((v in result) == (%s or (wlen(v) == i + 1 and over(N.Sigma, v) and any(y in F1 and y in Nhat(N, v) for y in atoms()))) for v in allwords())' % (_RB % 'i'),
+                        'all((v in result) == (%s or (wlen(v) == i + 1 and over(N.Sigma, v) and nfa_accepts(N, v))) for v in allwords())' % (_RB % 'i'),
+                        'all((v in result) == %s for v in allwords())' % (_RB % 'i + 1')]},
+                4: {'ghost': 'doneA', 'invariant': _NW_COMMON + ['q in W', 'words == lookup(W, q)', _W1(_P4), _RES(_P4)]},
+                5: {'ghost': 'doneQ', 'invariant': _NW_COMMON + ['q in W', 'words == lookup(W, q)', 'a in N.Sigma', _W1(_P5), _RES(_P5)]}},
+         theories=['word', 'wordx', 'nfa', 'nfax'], props=['C02', 'C12', 'C19'],
+         note='W[y] holds exactly the words of length i over Sigma after which y is among the current states; a word is added to the result when it reaches a state whose closure meets F')
